@@ -136,6 +136,15 @@ def run(ctx):
                 cases.append(('tostring', f'tostring {f} {enc_scored}', 'ok ' + enc_str(out) if out is not None else err, desc))
             elif f == 'prolog':
                 cases.append(('prolog', f'prolog_{lang} {enc_batch}', 'ok ' + enc_str(out) if out is not None else err, desc))
+            elif f == 'html':
+                enc_html = f'{len(batch)} ' + ' '.join(f'{len(sent)} ' + ' '.join(enc_str(f'{st.score:.5e}') + ' ' + T.enc_tree(st.tree) for st in sent)
+                                                     for sent in batch)
+                cases.append(('html', f'html {enc_html}', 'ok ' + enc_str(out) if out is not None else err, desc))
+                if out is not None:
+                    for _, t in flat:
+                        # the model's own reader applied to the model's text must give back the skeleton the
+                        # real regular expression / tree yields
+                        cases.append(('html_read', 'html_read ' + T.enc_tree(t), 'ok ' + enc_hskel(t), desc))
             elif f == 'xml' and out is not None:
                 cases.append(('xml', 'xml ' + enc_batch, 'ok ' + X.canon(etree.fromstring(out.encode('utf-8'))), desc))
             elif f == 'jigg_xml' and out is not None:
@@ -248,6 +257,17 @@ def run(ctx):
     ctx.sample({'formats_en': R.offered('en'), 'formats_ja': R.offered('ja')})
     ctx.extra['skipped_unsupported'] = common.compare_with_model(ctx, cases)
     common.conclude(ctx)
+
+
+def enc_hskel(t):
+    """the skeleton a reader of the html sees, from the tree itself (category segments by the
+    regular expression of the printer's specification)"""
+    import re as _re
+    segs = _re.findall(r'([^\[\]]+)(\[.+?\])*', str(t.cat))
+    se = f'{len(segs)}' + ''.join(' ' + enc_str(a) + ' ' + enc_str(b) for a, b in segs)
+    if t.is_leaf:
+        return 'L ' + enc_str(t.word) + ' ' + se
+    return 'N ' + enc_str(t.op_string) + ' ' + se + f' {len(t.children)}' + ''.join(' ' + enc_hskel(c) for c in t.children)
 
 
 def all_nodes(t):
